@@ -11,9 +11,11 @@ import json
 import os
 import shutil
 import time
+from concurrent.futures import ThreadPoolExecutor
 
 from lib import common as C
 from lib import observe, rustgen, runner, tsprint, typecases
+from lib import projcases as PC
 
 PROP = "C10"
 
@@ -72,7 +74,7 @@ def run(tier, seed, only=None):
                 agree.append({"event": "ModesAgree", "case": "%s/%d/%s" % (fam, i, site), "family": fam, "site": site, "spelling": po["spelling"],
                               "none": po["ts"], "zod": zo["ts"], "nnames": typecases.referenced_names(po["ts"]),
                               "znames": typecases.referenced_names(zo["ts"]), "canon": rustgen.canon(t)})
-    feat = feat + agree
+    feat = feat + agree + enum_events(d)
     rejected = set()
     validated = 0
     CH = 40000
@@ -172,6 +174,48 @@ pub struct JobStats { pub millis: u64 }
 pub fn queue_job(app: tauri::AppHandle, j: JobQueued) { app.emit("job-status", j).ok(); }
 pub fn finish_job(app: tauri::AppHandle, j: JobFinished) { app.emit("job-status", j).ok(); }
 """
+
+
+def enum_events(d):
+    """literal unions for enums: every TLC-enumerated variant attribute list (Gen_Names mode attrs: renames over the
+    character classes incl. backslash, quotes and control characters, aliases, several attributes, the three variant
+    kinds) under every convention is generated in both modes; the two declarations must consist of the same literals"""
+    from lib.checks import c06
+    ga = [c for c in C.run_tlc("Gen_Names", "Gen_Names_attrs", workers=4, timeout=900, heap="8g").json_lines("REPLAY") if c["kind"] == "variant"]
+    if len(ga) < 500:
+        raise C.ToolError("variant attribute cases incomplete: %d" % len(ga))
+    named = [("E%d" % i, c) for i, c in enumerate(ga)]
+    evs = []
+
+    def work(job):
+        pi, pack = job
+        src = [PC.PRELUDE, "fn skip_default() -> u8 { 0 }\n"]
+        for name, c in pack:
+            # the case's variant between two plain ones, so that the union has several members
+            src.append(c06.container_source(name, "variant", c["rule"], [dict(c, ident=list("Before"), attr="none", alist=[], skip=False, vkind="unit"), c,
+                                                                        dict(c, ident=list("AfterIt"), attr="none", alist=[], skip=False, vkind="unit")]))
+        src.append("#[tauri::command]\npub fn use_all(%s) {}\n" % ", ".join("p%d: %s" % (j, name) for j, (name, _) in enumerate(pack)))
+        obs = {}
+        for mode in ("none", "zod"):
+            b, res, texts = PC.run_project(d, "enum%d-%s" % (pi, mode), {"src/lib.rs": "\n".join(src)}, mode=mode)
+            for name, c in pack:
+                o = c06.observe_container(b, name, "variant")
+                obs[(name, mode)] = None if o is None else ["".join(x if len(x) == 1 else "<%s>" % x for x in e) for e, q in o]
+        out = []
+        for name, c in pack:
+            a, z = obs[(name, "none")], obs[(name, "zod")]
+            if a is None and z is None:
+                continue      # not a literal union in either mode (data-carrying variants): outside this comparison
+            out.append({"event": "Keys", "case": "enum/%s" % name, "decl": "enum rule=%s attr=%s vkind=%s" % (c["rule"], c["attr"] if c["attr"] != "list" else "+".join(c["alist"]), c.get("vkind", "unit")),
+                        "none": a if a is not None else ["<not a literal union>"], "zod": z if z is not None else ["<not a literal union>"]})
+        return out
+    packs = [named[i:i + 120] for i in range(0, len(named), 120)]
+    with ThreadPoolExecutor(max_workers=8) as ex:
+        for out in ex.map(work, list(enumerate(packs))):
+            evs.extend(out)
+    if len(evs) < 300:
+        raise C.ToolError("enum comparison vacuous: %d of %d cases observed as literal unions" % (len(evs), len(ga)))
+    return evs
 
 
 def feature_events(d):
